@@ -43,6 +43,7 @@ var c14Pool = []string{"a.co", "a.com.cn", "a.com", "b.com", "c.com", "d.com", "
 var c14NestPool = []string{"{sub}.a.com", "{sub}.a.com.cn", "{sub}.a.org", "{sub}.a.co", "\u00e9cole.com", "{sub}.\u00e9cole.com",
 	"{Sub:\\D+}.B.net", // a name and a rule with capitals: only the text outside the braces is case-insensitive
 	"{t}.com", // competes with {sub}.a.com for x.a.com: whichever wins, deleting a third domain must not change it
+	"*.a.com", // a literal domain that begins with '*': only the Host "*" itself is the server-wide target
 	"{sub:digit}.c.com", "{sub:digit}.c.org"} // two domains sharing a rule that RegisterInterceptor can turn from a regexp into an interceptor
 
 type c14Cfg struct {
@@ -110,7 +111,7 @@ func lowerOutsideBraces(d string) string {
 		b.WriteString(strings.ToLower(d[:i]))
 		j := strings.IndexByte(d[i:], '}')
 		if j < 0 {
-			b.WriteString(d[i:])
+			b.WriteString(strings.ToLower(d[i:])) // a brace that is never closed opens no parameter: literal text
 			break
 		}
 		b.WriteString(d[i : i+j+1])
@@ -441,6 +442,34 @@ func init() {
 			"probes: per pool domain a witness host as is, upper-cased, with :80, with an empty port, with an invalid port, bracketed, bracketed with port, and all edit-distance-1 neighbours over {a . : x}; plus '', '*', unrelated hosts",
 			"a second family (depth+1) over wildcard domains that are textual prefixes of one another ({sub}.a.com, {sub}.a.com.cn, {sub}.a.org, {sub}.a.co) and domains with non-ASCII letters, added and deleted in mixed case; probes also carry a lone bracket and capitals in part of the name",
 			"oracle: accept iff ref.Resolve(live domain patterns, normalise(host)) is non-empty, parameters exactly that pattern's; rejecting leaves no parameters; Delete leaves every other answer unchanged")
+		// domain names are case-insensitive wherever they are literal text - also after a brace that is never closed
+		for _, d := range []string{"x{ABC.net", "Y}{AB.net", "{sub}.Z{C.net"} {
+			h := mux.NewHosts(false)
+			host := strings.ReplaceAll(strings.ToLower(d), "{sub}", "x1")
+			_, bad := Guard(func() { h.Add(d) })
+			before := probeHost(h, host).String()
+			_, bad2 := Guard(func() { h.Delete(strings.ToUpper(d[:1]) + d[1:]) })
+			after := probeHost(h, host).String()
+			rc.Add("states", 2)
+			if bad || bad2 || !strings.HasPrefix(before, "match=true") || !strings.HasPrefix(after, "match=false") {
+				rc.Report(explore.Violation{Property: "C14", Clause: "C14.match", Class: "unclosed-brace-text-case-sensitive", History: []string{fmt.Sprintf("Add(%q)", d), fmt.Sprintf("Delete(%q)", strings.ToUpper(d[:1])+d[1:])},
+					Probe: fmt.Sprintf("Match(Host=%q) after Add and again after Delete", host), Observed: fmt.Sprintf("after Add: %s (panic=%v); after Delete: %s (panic=%v)", before, bad, after, bad2), Expected: "match=true, then match=false: the text of the domain is literal and case-insensitive"})
+			}
+		}
+		// a domain added after RegisterInterceptor whose first token has the same text as the node two earlier domains
+		// share (added while the rule was still a regexp): the new domain's parameter is an interceptor parameter
+		{
+			h := mux.NewHosts(false, "{id:digit}.c.com", "{id:digit}.c.org")
+			h.RegisterInterceptor(ref.MatchDigit, "digit")
+			_, bad := Guard(func() { h.Add("{id:digit}.c.{tld}") })
+			got := probeHost(h, "123.c.net").String()
+			rc.Add("states", 1)
+			if want := `match=true params={id="123",tld="net"}`; bad || got != want {
+				rc.Report(explore.Violation{Property: "C14", Clause: "C14.match", Class: "interceptor-domain-joins-earlier-regexp-node",
+					History: []string{`NewHosts("{id:digit}.c.com", "{id:digit}.c.org")`, `RegisterInterceptor(digit)`, `Add("{id:digit}.c.{tld}")`},
+					Probe: `Match(Host="123.c.net")`, Observed: fmt.Sprintf("%s (Add panicked: %v)", got, bad), Expected: want + ": in a domain added after the registration {id:digit} is an interceptor parameter"})
+			}
+		}
 		explore.BFS(rc, "c14/expand", c14Cfg{}, depth, true, "C14")
 		explore.BFS(rc, "c14/expand", c14Cfg{Family: 1}, depth+1, true, "C14 nested wildcard domains, non-ASCII names")
 	}})
